@@ -490,6 +490,7 @@ func run(seed int64, n int, out string, args []string) {
 		j.run()
 	}
 	ps.report()
+	lalrReport(o)
 }
 
 func genEscInput(g *hc.Gen) string {
